@@ -996,6 +996,7 @@ static ares_server_t *ares_random_server(ares_channel_t *channel)
     return NULL;
   }
 
+  ARES_VERIF_RAND_PURPOSE(ARES_VERIF_RAND_ROTATE);
   ares_rand_bytes(channel->rand_state, &c, 1);
 
   cnt = c;
@@ -1047,6 +1048,7 @@ static void ares_probe_failed_server(ares_channel_t      *channel,
    * precision of 1/2^B where B is the number of bits in the random value.
    * We use an unsigned short for the random value for increased precision.
    */
+  ARES_VERIF_RAND_PURPOSE(ARES_VERIF_RAND_PROBE);
   ares_rand_bytes(channel->rand_state, (unsigned char *)&r, sizeof(r));
   if (r % channel->server_retry_chance != 0) {
     return;
@@ -1119,6 +1121,7 @@ static size_t ares_calc_query_timeout(const ares_query_t   *query,
     unsigned short r;
     float          delta_multiplier;
 
+    ARES_VERIF_RAND_PURPOSE(ARES_VERIF_RAND_JITTER);
     ares_rand_bytes(channel->rand_state, (unsigned char *)&r, sizeof(r));
     delta_multiplier  = ((float)r / USHRT_MAX) * 0.5f;
     timeplus         -= (size_t)((float)timeplus * delta_multiplier);
